@@ -559,6 +559,11 @@ pub fn run(out: &mut Out, thorough: bool, seed: u64, prop: &str) {
             }
         }
     }
+    match prop {
+        "C17" => crate::pop::c17(out, &mut rng, thorough),
+        "C18" => crate::pop::c18(out, &mut rng, thorough),
+        _ => {}
+    }
     let _ = (fe::<Field64>(1), Field64::modulus());
     out.samples = out.ops.iter().step_by(out.ops.len() / 8 + 1).map(|s| s.chars().take(300).collect()).collect();
 }
